@@ -245,6 +245,7 @@ dither_write_short	(SF_PRIVATE *psf, const short *ptr, sf_count_t len)
 		thiswrite = (int) pdither->write_short (psf, (short*) pdither->buffer, writecount) ;
 		total += thiswrite ;
 		len -= thiswrite ;
+		ptr += thiswrite ;
 		if (thiswrite < writecount)
 			break ;
 		} ;
@@ -291,6 +292,7 @@ dither_write_int	(SF_PRIVATE *psf, const int *ptr, sf_count_t len)
 		thiswrite = (int) pdither->write_int (psf, (int*) pdither->buffer, writecount) ;
 		total += thiswrite ;
 		len -= thiswrite ;
+		ptr += thiswrite ;
 		if (thiswrite < writecount)
 			break ;
 		} ;
@@ -336,6 +338,7 @@ dither_write_float	(SF_PRIVATE *psf, const float *ptr, sf_count_t len)
 		thiswrite = (int) pdither->write_float (psf, (float*) pdither->buffer, writecount) ;
 		total += thiswrite ;
 		len -= thiswrite ;
+		ptr += thiswrite ;
 		if (thiswrite < writecount)
 			break ;
 		} ;
@@ -382,6 +385,7 @@ dither_write_double	(SF_PRIVATE *psf, const double *ptr, sf_count_t len)
 		thiswrite = (int) pdither->write_double (psf, (double*) pdither->buffer, writecount) ;
 		total += thiswrite ;
 		len -= thiswrite ;
+		ptr += thiswrite ;
 		if (thiswrite < writecount)
 			break ;
 		} ;
